@@ -210,21 +210,48 @@ def d12_3(ctx):
               f"length field read with {facts}; the header carries it as a little-endian UINT at offset {length_field['offset']}", **facts)
     fold = _fold(ctx, cls.module)
     loops = [n for n in walk(fn) if isinstance(n, ast.While)]
-    want = Lin(1 - spec["size"], {f"len({buf})": 1, len_var: -1})  # len - data_len - 24 + 1 <= 0
+    # accumulator normal form of the completion loop: G = bytes appended to the buffer by the loop so far, len0 = buffer length
+    # at loop entry.  len(buf) = len0 + G; a counter updated by +-k*len(chunk appended) is init + k*G.  The loop test, rewritten
+    # in (len0, G, length), must be  len0 + G < HEADER_SIZE + length  - whether it is spelled on the buffer or as a countdown.
+    want = Lin(1 - spec["size"], {"<len0>": 1, "<G>": 1, len_var: -1})
     match = None
     seen = []
-    for lp in loops:
-        c = cmp_norm(lp.test, fold)
-        seen.append(src(lp.test))
-        if c is not None and c[0] == "<=0" and len_var in c[1].terms:
-            match = (lp, c[1])
     key = ckey(f"{SOCK}:Socket.receive", "completion")
+    for lp in loops:
+        seen.append(src(lp.test))
+        appends = [x for x in walk(lp) if isinstance(x, ast.AugAssign) and isinstance(x.op, ast.Add) and atom_name(x.target) == buf]
+        if len(appends) != 1:
+            continue
+        chunk = appends[0].value
+        chunk_len = f"len({atom_name(chunk)})"
+        sub, problems = {}, []
+        for x in walk(lp):
+            if isinstance(x, ast.AugAssign) and isinstance(x.target, ast.Name) and x.target.id != buf and isinstance(x.op, (ast.Add, ast.Sub)):
+                v = x.target.id
+                d = lin(x.value, fold)
+                inits = [y for y in walk(fn) if isinstance(y, ast.Assign) and atom_name(y.targets[0]) == v and y.lineno < lp.lineno]
+                li = lin(inits[-1].value, fold) if inits else None
+                if d is None or li is None or set(d.terms) != {chunk_len} or d.const != 0:
+                    problems.append(f"`{src(x)}` does not advance `{v}` by the number of bytes just appended ({chunk_len})")
+                    continue
+                k = d.terms[chunk_len] * (1 if isinstance(x.op, ast.Add) else -1)
+                li = Lin(li.const, {("<len0>" if t == f"len({buf})" else t): c_ for t, c_ in li.terms.items()})
+                sub[v] = li + Lin(0, {"<G>": k})
+        c = cmp_norm(lp.test, fold, subst=sub)
+        if c is None or c[0] != "<=0":
+            continue
+        L = Lin(c[1].const, {})
+        for t, c_ in c[1].terms.items():
+            L = L + (Lin(0, {"<len0>": c_, "<G>": c_}) if t == f"len({buf})" else Lin(0, {t: c_}))
+        if len_var in L.terms or problems:
+            match = (lp, L, problems)
     if match is None:
         ctx.violation(key, fn, f"no accumulate loop conditioned on `{len_var}` found", loops=seen)
     else:
-        lp, L = match
-        ctx.check(L == want, key, lp, "loop continues exactly while fewer than HEADER_SIZE + length bytes have arrived",
-                  f"completion test `{src(lp.test)}` normalises to `{L} <= 0`, expected `{want} <= 0` (off-by-one or wrong header size returns a partial frame or waits for bytes that never come)", got=repr(L), want=repr(want))
+        lp, L, problems = match
+        ctx.check(L == want and not problems, key, lp, "loop continues exactly while fewer than HEADER_SIZE + length bytes have arrived",
+                  (f"{problems[0]}: the loop ends although bytes are missing when a recv returns fewer bytes than asked for" if problems else
+                   f"completion test `{src(lp.test)}` normalises to `{L} <= 0`, expected `{want} <= 0` (off-by-one or wrong header size returns a partial frame or waits for bytes that never come)"), got=repr(L), want=repr(want))
         # the loop must grow the same buffer and the function must return it
         grows = any(isinstance(s, ast.AugAssign) and isinstance(s.op, ast.Add) and atom_name(s.target) == buf for s in walk(lp))
         rets = [r for r in walk(fn) if isinstance(r, ast.Return)]
